@@ -47,6 +47,7 @@ class AddonPersistence(Addon, metaclass=abc.ABCMeta):
         self.persistent: bool = bool(persistent)
         self.sync_state: bool = bool(sync_state)
         self.expiration: float = utils.time_period(expiration)
+        self._event_depth = 0   # nesting level of event() calls
         super().__init__(*args, **kwargs)
         # str(self) (as defined in superclass!) is used as a key instead of
         # just the name, because it contains also the block type name.
@@ -54,6 +55,7 @@ class AddonPersistence(Addon, metaclass=abc.ABCMeta):
 
     def event(self, etype: str|block.EventType, /, **data) -> Any:
         """Save persistent state after a possible state change."""
+        self._event_depth += 1
         try:
             retval = super().event(etype, **data)
         except Exception:
@@ -64,7 +66,11 @@ class AddonPersistence(Addon, metaclass=abc.ABCMeta):
                 self.log_warning("Disabling persistent state due to an error")
                 self.persistent = False
             raise
-        if self.persistent and self.sync_state:
+        finally:
+            self._event_depth -= 1
+        # do not save an intermediate state from a nested call (e.g. an FSM chained
+        # transition); the event being handled may still fail
+        if self.persistent and self.sync_state and self._event_depth == 0:
             self.save_persistent_state()
         return retval
 
